@@ -43,7 +43,7 @@ def run_convs(pid, convs, rep, keys=("wire", "cbs", "closed", "rets"), monitors=
             monitor_hits.append((c, "Serve returned %s" % r.get("serve_err"), r))
     for sc, err in crashes:
         conv = next(c for c in convs if c.sid == sc["id"])
-        sig = {"kind": "crash", "tag": conv.tag, "hold": conv.hold, "panic": _panic_site(err)}
+        sig = {"kind": "crash", "panic": _panic_site(err)}
         rep.violation(sig, {"what": "the process running corebgp crashed", "scenario": sc, "stderr": err[-1500:],
                             "model_case": conv.model_case().line()[:2000]}, found_input=True)
         rep.sys_found = True
@@ -103,7 +103,9 @@ def run_convs(pid, convs, rep, keys=("wire", "cbs", "closed", "rets"), monitors=
 
 
 def _panic_site(err):
+    import re
     for l in err.splitlines():
-        if "corebgp" in l and ".go:" in l:
-            return l.strip().split(" ")[0]
+        m = re.search(r"/([A-Za-z0-9_]+\.go):(\d+)", l)
+        if m and "/repo/" in l:
+            return "%s:%s" % (m.group(1), m.group(2))
     return "unknown"
